@@ -40,7 +40,7 @@ CUR = {}
 
 
 def streams(ctx):
-    return [("docstrings", ctx.scale(2500, 40000))]
+    return [("docstrings", ctx.scale(2500, 40000)), ("keyword_prose", ctx.scale(800, 12000))]
 
 
 def post_split(current_doc_str, original_doc_str, result):
@@ -117,8 +117,10 @@ def run_case(ctx, P, stream, idx):
     with_footer = r.random() < 0.35
     n_params = r.randint(0, 5)
     params = docgen.rand_params(r, n=n_params, types=True)
+    # prose whose lines open with a word that would head a section if a colon / underline followed
+    lead = docgen.SECTION_WORDS if stream == "keyword_prose" else None
     text, parts = docgen.compose(r, S, indent=indent, params=params, paragraphs=r.randint(1, 3), with_footer=with_footer,
-                                 lead_nl=r.random() < 0.8)
+                                 lead_nl=r.random() < 0.8, header_lead=lead)
     feats = "S=%s,indent=%d,footer=%s,params=%s,ret=%s" % (S, indent, parts["footer"].split("\n")[0].split(":")[0][:8]
                                                           if with_footer else "none", n_params > 0,
                                                           parts["returns"] is not None)
